@@ -86,6 +86,17 @@ CLAIMED = {
             "keys - for EVERY group satisfying EdLaws (_partial). Correspondence: 81 boundary index pairs x wallets x networks; model = library = python.",
             "PARTIAL: group laws are hypotheses (EdLaws; distinctness uses that G has order exactly l); no collision resistance assumed; address text is C12",
             "Coq proof over an abstract group (partial) + correspondence", "4 C11"),
+    "C16": ("Coq theorems (Props/C16.v, 22), for an arbitrary key-validity predicate and ALL inputs: ExtraField::try_parse is total on every byte "
+            "string (fuel never exhausted, no panic, padding counter never overflows; each iteration consumes >= 1 byte); for every sub-field "
+            "sequence with constructible sub-fields, padding of fewer than 255 bytes only in last position (255 anywhere) and serialised length "
+            "<= 32 MiB, RawExtraField::from(ExtraField) is the concatenation of the sub-field encodings and try_parse returns Ok of the same "
+            "sequence; strict parse of each sub-field alone returns it; try_parse is Ok iff the input decodes with no failed sub-field, and then "
+            "re-serialise + re-parse is the identity on sub-fields; accessors return the first TxPublicKey / AdditionalPublickKey; the prefix "
+            "decoder takes any extra bytes verbatim. Correspondence on ~1.4*10^5 inputs in BOTH profiles (all strings <= 2 bytes, all padding "
+            "sizes in every position, boundaries, every-offset mutations); oracle = independent python grammar + Ed25519 validity.",
+            "model Model/Extra.v hand-written; PublicKey::from_slice acceptance abstract in the theorems (Ed25519.pk_valid in the executable instance); "
+            "the 32 MiB cap is part of the round-trip side condition (RawExtraField::from panics beyond it: DESIGN section 6, observation)",
+            "Coq proof + model/implementation correspondence", "4 C16"),
 }
 NOT_YET = {}
 ALL = ["C%02d" % i for i in range(1, 21)]
